@@ -53,7 +53,14 @@ def r1_append_and_refuse(repo=None):
     writes = [c for c in ast.walk(w) if isinstance(c, ast.Call) and isinstance(c.func, ast.Attribute)
               and c.func.attr in ("create_dataset", "require_dataset", "__setitem__")]
     subs = [n for n in ast.walk(w) if isinstance(n, ast.Assign) and isinstance(n.targets[0], ast.Subscript)]
-    if writes and all(c.func.attr == "create_dataset" and pyfront.dotted(c.func.value) == "grp" for c in writes) and not subs:
+    gvars = set()
+    for n in ast.walk(w):
+        if isinstance(n, ast.For) and isinstance(n.iter, ast.Call) and pyfront.call_name(n.iter) == "zip" and isinstance(n.target, ast.Tuple) \
+                and n.target.elts and isinstance(n.target.elts[0], ast.Name):
+            gvars.add(n.target.elts[0].id)
+    if not gvars:
+        raise AnalysisError("%s._write: loop over zip(<sample groups>, <key/value iterators>) not recognised" % W)
+    if writes and all(c.func.attr == "create_dataset" and pyfront.dotted(c.func.value) in gvars for c in writes) and not subs:
         r.ok("%s:%s %s._write" % (m.rel, w.lineno, W), "values are written only with create_dataset into the freshly created group")
     else:
         r.violation(m.rel, W + "._write", "dataset writes: %s" % [norm(ast.unparse(c))[:40] for c in writes], "values are not "
@@ -77,6 +84,11 @@ def _is_edge_membership(test):
                     idx.append(v)
             return sorted(idx, key=str) == sorted([0, -1], key=str)
     return False
+
+
+def _mentions_list_ends(test):
+    return any(isinstance(n, ast.Subscript) and (pyfront.const(n.slice) == 0 or (
+        isinstance(n.slice, ast.UnaryOp) and isinstance(n.slice.op, ast.USub))) for n in ast.walk(test))
 
 
 def r2_range_filter(repo=None, rid="C12.R2"):
@@ -111,29 +123,58 @@ def r2_range_filter(repo=None, rid="C12.R2"):
                 v = pyfront.const(a.value)
                 if v is True:
                     continue
+                if _is_edge_membership(a.value):
+                    continue
+                par = m.parents.get(a)
                 if v is False:
-                    par = m.parents.get(a)
                     if isinstance(par, ast.If) and a in par.orelse and _is_edge_membership(par.test):
                         continue
-                bad = a
+                    if isinstance(par, ast.If) and not _mentions_list_ends(par.test):
+                        raise AnalysisError("%s: condition `%s` under which is_edge is False not recognised" % (q, norm(ast.unparse(par.test))))
+                    bad = a
+                    continue
+                if isinstance(a.value, ast.Compare) and isinstance(a.value.ops[0], ast.In):
+                    bad = a        # membership in something that is not (first, last)
+                    continue
+                raise AnalysisError("%s: `%s` not recognised" % (q, norm(ast.unparse(a))))
             if bad is None and assigns:
                 r.ok(site, "False only for files strictly between the first and the last file of the list")
+            elif not assigns:
+                raise AnalysisError("%s: no assignment to `%s`" % (q, arg.id))
             else:
-                r.violation(m.rel, q, norm(ast.unparse(bad or c))[:80], "is_edge can be False for a file at the edge of the "
-                            "requested range", line=(bad or c).lineno)
+                r.violation(m.rel, q, norm(ast.unparse(bad))[:80], "is_edge can be False for a file at the edge of the "
+                            "requested range", line=bad.lineno)
+        elif _is_edge_membership(arg):
+            r.ok(site, "False only for files strictly between the first and the last file of the list")
         else:
-            r.violation(m.rel, q, norm(ast.unparse(c))[:80], "unrecognised is_edge argument", line=c.lineno)
-    # the filter itself: idxs >= sample0 and idxs <= sample1 under `if is_edge`
+            raise AnalysisError("%s: is_edge argument `%s` not recognised" % (q, norm(ast.unparse(arg))))
+    # the filter itself: keys >= sample0 and keys <= sample1 under `if is_edge`
     am = m.fn(R + "._add_metadata")
-    ifs = [n for n in ast.walk(am) if isinstance(n, ast.If) and isinstance(n.test, ast.Name) and n.test.id == "is_edge"]
-    ok = False
-    if len(ifs) == 1:
-        src = ast.unparse(ifs[0])
-        ok = "idxs >= sample0" in src and "idxs <= sample1" in src and "idxs = idxs[valid]" in src
-    if ok:
-        r.ok("%s:%s %s._add_metadata" % (m.rel, ifs[0].lineno, R), "is_edge selects sample0 <= idx <= sample1 (inclusive on both ends)")
+    p_lo, p_hi, p_edge = params[pos - 1], params[pos], params[pos + 1]
+    ifs = [n for n in ast.walk(am) if isinstance(n, ast.If) and isinstance(n.test, ast.Name) and n.test.id == p_edge]
+    if len(ifs) != 1:
+        raise AnalysisError("%s._add_metadata: `if %s:` not found exactly once" % (R, p_edge))
+    cmps = {}
+    for n in ast.walk(ifs[0]):
+        if isinstance(n, ast.Compare) and len(n.ops) == 1:
+            l, rt, op = n.left, n.comparators[0], type(n.ops[0]).__name__
+            if isinstance(rt, ast.Name) and rt.id in (p_lo, p_hi) and isinstance(l, ast.Name):
+                cmps[rt.id] = (l.id, op)
+            elif isinstance(l, ast.Name) and l.id in (p_lo, p_hi) and isinstance(rt, ast.Name):
+                flip = {"LtE": "GtE", "GtE": "LtE", "Lt": "Gt", "Gt": "Lt"}.get(op, op)
+                cmps[l.id] = (rt.id, flip)
+    if p_lo not in cmps or p_hi not in cmps:
+        raise AnalysisError("%s._add_metadata: comparisons with %s / %s not found under `if %s`" % (R, p_lo, p_hi, p_edge))
+    arr = cmps[p_lo][0]
+    sel = [n for n in ast.walk(ifs[0]) if isinstance(n, ast.Assign) and isinstance(n.targets[0], ast.Name) and n.targets[0].id == arr
+           and isinstance(n.value, ast.Subscript) and pyfront.dotted(n.value.value) == arr]
+    if cmps[p_lo] == (arr, "GtE") and cmps[p_hi] == (arr, "LtE") and sel:
+        r.ok("%s:%s %s._add_metadata" % (m.rel, ifs[0].lineno, R), "is_edge selects %s <= idx <= %s (inclusive on both ends)" % (p_lo, p_hi))
     else:
-        r.violation(m.rel, R + "._add_metadata", "if is_edge: ...", "inclusive range filter idiom not found", line=am.lineno)
+        r.violation(m.rel, R + "._add_metadata", "range filter: %s %s %s, %s %s %s%s" % (cmps[p_lo][0], cmps[p_lo][1], p_lo, cmps[p_hi][0],
+                    cmps[p_hi][1], p_hi, "" if sel else " (selection not applied)"), "the range filter is not the inclusive "
+                    "%s <= idx <= %s: a sample exactly at an end of the requested range is dropped, or samples outside are kept" % (p_lo, p_hi),
+                    line=ifs[0].lineno)
     r.guard(3)
     return r
 
@@ -181,19 +222,69 @@ def r3_numeric_key_order(repo=None, rid="C12.R3"):
                 r.violation(m.rel, q, norm(ast.unparse(c)), "group names are ordered as strings: with indices of different digit "
                             "counts in one file ('999999995' > '1000000005') the first/last key is wrong, so the reported "
                             "bounds are wrong", line=c.lineno)
-    # _add_metadata converts to int64 before sorting
+    # _add_metadata: the array the samples are taken from is made of integers and sorted before the loop
     am = m.fn(R + "._add_metadata")
-    src = ast.unparse(am)
-    if "np.fromiter(keys, np.int64" in src and "idxs.sort()" in src:
-        n_sites += 1
-        r.ok("%s:%s %s._add_metadata" % (m.rel, am.lineno, R), "keys converted to int64 before sort()")
+    qa = R + "._add_metadata"
+    loops = [n for n in ast.walk(am) if isinstance(n, ast.For) and isinstance(n.iter, ast.Name) and any(
+        isinstance(c, ast.Call) and pyfront.call_name(c) == "self._populate_data" for c in ast.walk(n))]
+    loops = [l for l in loops if not any(l is not o and any(x is l for x in ast.walk(o)) for o in loops)]
+    if len(loops) != 1:
+        raise AnalysisError("%s: loop over the sample indices of a file not recognised" % qa)
+    arr = loops[0].iter.id
+    chain, work = set(), [arr]
+    integer = ordered = False
+    while work:
+        v = work.pop()
+        if v in chain:
+            continue
+        chain.add(v)
+        for n in ast.walk(am):
+            if isinstance(n, ast.Assign) and any(isinstance(t, ast.Name) and t.id == v for t in n.targets) and n.lineno < loops[0].lineno:
+                src = norm(ast.unparse(n.value))
+                if any(k in src for k in ("np.int64", "np.uint64", "'int64'", "dtype=int", "int(")) and any(
+                        k in src for k in ("fromiter", "astype", "np.array", "np.asarray", "int(")):
+                    integer = True
+                if (src.startswith("np.sort(") or src.startswith("sorted(")) and integer:
+                    ordered = True
+                work.extend(x.id for x in ast.walk(n.value) if isinstance(x, ast.Name))
+            if isinstance(n, ast.Call) and isinstance(n.func, ast.Attribute) and n.func.attr == "sort" and pyfront.dotted(n.func.value) == v \
+                    and n.lineno < loops[0].lineno and v == arr:
+                ordered = True
+    keys_src = any(isinstance(n, ast.Call) and isinstance(n.func, ast.Attribute) and n.func.attr == "keys" for n in ast.walk(am))
+    if not keys_src:
+        raise AnalysisError("%s: group names (.keys()) not found" % qa)
+    n_sites += 1
+    if integer and ordered:
+        r.ok("%s:%s %s" % (m.rel, am.lineno, qa), "group names converted to integers and sorted before the samples are read")
     else:
-        r.violation(m.rel, R + "._add_metadata", "key ordering", "keys are not converted to integers before being sorted: "
-                    "samples would be returned out of ascending index order", line=am.lineno)
-    if n_sites < 3:
+        r.violation(m.rel, qa, "key ordering of `%s` (integer: %s, sorted: %s)" % (arr, integer, ordered), "keys are not converted to "
+                    "integers and sorted before being read: samples would be returned out of ascending index order", line=loops[0].lineno)
+    if n_sites < 2:
         raise AnalysisError("C12.R3: %d key-ordering sites found, 3 confirmed on the reference tree" % n_sites)
     r.guard(3)
     return r
+
+
+def _isinstance_test(test, var, types):
+    """+1 if test is isinstance(var, T), -1 if `not isinstance(var, T)`, 0 otherwise"""
+    neg = 1
+    if isinstance(test, ast.UnaryOp) and isinstance(test.op, ast.Not):
+        neg, test = -1, test.operand
+    if isinstance(test, ast.Call) and pyfront.call_name(test) == "isinstance" and len(test.args) == 2 \
+            and isinstance(test.args[0], ast.Name) and test.args[0].id == var and norm(ast.unparse(test.args[1])) in types:
+        return neg
+    return 0
+
+
+def _none_test(test):
+    """(var, +1) for `var is None`, (var, -1) for `var is not None`"""
+    if isinstance(test, ast.Compare) and len(test.ops) == 1 and isinstance(test.left, ast.Name) and pyfront.const(test.comparators[0]) is None \
+            and isinstance(test.comparators[0], ast.Constant):
+        if isinstance(test.ops[0], ast.Is):
+            return test.left.id, 1
+        if isinstance(test.ops[0], ast.IsNot):
+            return test.left.id, -1
+    return None, 0
 
 
 def r5_recursive_shape(repo=None):
@@ -201,24 +292,43 @@ def r5_recursive_shape(repo=None):
     m = pyfront.mod("digital_metadata", repo)
     ri = m.fn("_recursive_items")
     rec = [c for c in pyfront.calls_in(ri, ("_recursive_items",))]
-    ok = len(rec) == 1 and len(rec[0].args) >= 2 and norm(ast.unparse(rec[0].args[1])) in ("name + '/'",)
+    rparams = [a.arg for a in ri.args.args]
+    ok = False
+    if len(rec) == 1 and len(rec[0].args) >= 2:
+        a1 = rec[0].args[1]
+        if isinstance(a1, ast.BinOp) and isinstance(a1.op, ast.Add) and pyfront.const(a1.right) == "/" and isinstance(a1.left, ast.Name):
+            defs = [n for n in ast.walk(ri) if isinstance(n, ast.Assign) and isinstance(n.targets[0], ast.Name) and n.targets[0].id == a1.left.id]
+            ok = len(defs) == 1 and isinstance(defs[0].value, ast.BinOp) and isinstance(defs[0].value.op, ast.Add) \
+                and isinstance(defs[0].value.left, ast.Name) and defs[0].value.left.id == rparams[1]
     if ok:
         r.ok("%s:%s _recursive_items" % (m.rel, ri.lineno), "sub-dictionaries are flattened with the prefix name + '/' (HDF5 nested groups)")
+    elif not rec:
+        r.violation(m.rel, "_recursive_items", "no recursion", "nested dictionaries are not written as nested groups", line=ri.lineno)
+    elif len(rec) == 1 and len(rec[0].args) >= 2:
+        r.violation(m.rel, "_recursive_items", norm(ast.unparse(rec[0]))[:80], "nested dictionaries are not written as nested groups "
+                    "(prefix is not <prefix + key> + '/')", line=rec[0].lineno)
     else:
-        r.violation(m.rel, "_recursive_items", norm(ast.unparse(rec[0]))[:80] if rec else "no recursion",
-                    "nested dictionaries are not written as nested groups", line=ri.lineno)
+        raise AnalysisError("_recursive_items: recursion not recognised")
     pd = m.fn(R + "._populate_data")
-    top = [s for s in pd.body if isinstance(s, ast.If)]
-    ok = False
-    if top:
-        t = top[0]
-        ok = "isinstance(obj, h5py.Dataset)" in ast.unparse(t.test) and t.orelse and any(
-            pyfront.call_name(c) == "self._populate_data" for s in t.orelse for c in ast.walk(s) if isinstance(c, ast.Call)) \
-            and any(isinstance(s, ast.For) and "obj.items()" in ast.unparse(s.iter) for s in t.orelse)
-    if ok:
-        r.ok("%s:%s %s._populate_data" % (m.rel, pd.lineno, R), "datasets become values, groups are read recursively over obj.items()")
+    pp = [a.arg for a in pd.args.args if a.arg != "self"]
+    if len(pp) != 3:
+        raise AnalysisError("%s._populate_data: parameters not recognised" % R)
+    top = [s_ for s_ in pd.body if isinstance(s_, ast.If) and _isinstance_test(s_.test, pp[1], ("h5py.Dataset", "h5py.Group"))]
+    if len(top) != 1:
+        raise AnalysisError("%s._populate_data: dataset/group dispatch on `%s` not found" % (R, pp[1]))
+    t = top[0]
+    sign = _isinstance_test(t.test, pp[1], ("h5py.Dataset", "h5py.Group"))
+    if "Group" in ast.unparse(t.test):
+        sign = -sign
+    group_branch = t.orelse if sign > 0 else t.body
+    rec_ok = any(isinstance(s_, ast.For) and norm(ast.unparse(s_.iter)) in ("%s.items()" % pp[1], "six.iteritems(%s)" % pp[1])
+                 and any(pyfront.call_name(c) == "self._populate_data" for c in ast.walk(s_) if isinstance(c, ast.Call))
+                 for b_ in group_branch for s_ in ast.walk(b_))
+    if rec_ok:
+        r.ok("%s:%s %s._populate_data" % (m.rel, pd.lineno, R), "datasets become values, groups are read recursively over their items")
     else:
-        r.violation(m.rel, R + "._populate_data", "dataset/group dispatch", "nested groups are not read back recursively", line=pd.lineno)
+        r.violation(m.rel, R + "._populate_data", "group branch: %s" % norm(" ".join(ast.unparse(x) for x in group_branch))[:100],
+                    "nested groups are not read back recursively", line=t.lineno)
     decs = [c for c in ast.walk(pd) if isinstance(c, ast.Call) and isinstance(c.func, ast.Attribute) and c.func.attr == "decode"]
     for c in decs:
         enc = pyfront.const(c.args[0]) if c.args else pyfront.const(pyfront.kwarg(c, "encoding")) if c.keywords else None
@@ -230,11 +340,49 @@ def r5_recursive_shape(repo=None):
                         "UTF-8: a non-ASCII value fails to decode and is returned as raw bytes instead of the written string" % enc,
                         line=c.lineno)
     w = m.fn(W + "._write")
-    src = ast.unparse(w)
-    if "if val is not None" in src and "data=''" in src:
-        r.ok("%s:%s %s._write" % (m.rel, w.lineno, W), "None is written as the empty string on a single branch")
-    else:
-        r.violation(m.rel, W + "._write", "None handling", "None values are not stored as the empty string", line=w.lineno)
+    creates = [c for c in ast.walk(w) if isinstance(c, ast.Call) and isinstance(c.func, ast.Attribute) and c.func.attr == "create_dataset"]
+    if not creates:
+        raise AnalysisError("%s._write: create_dataset not found" % W)
+    n_ok = 0
+    for c in creates:
+        data = pyfront.kwarg(c, "data", 1)
+        if isinstance(data, ast.Name):
+            # must be in the not-None branch of a test of that name
+            guarded = False
+            child = c
+            for anc in _ancestors(m, c):
+                if isinstance(anc, ast.If):
+                    var, sg = _none_test(anc.test)
+                    if var == data.id:
+                        in_body = any(child is x or any(child is y for y in ast.walk(x)) for x in anc.body)
+                        guarded = (sg < 0 and in_body) or (sg > 0 and not in_body)
+                if isinstance(anc, ast.stmt):
+                    child = anc
+            if guarded:
+                n_ok += 1
+            else:
+                r.violation(m.rel, W + "._write", norm(ast.unparse(c)), "a None value reaches create_dataset(data=None): None values "
+                            "are not stored as the empty string", line=c.lineno)
+        elif pyfront.const(data) == "":
+            in_none = False
+            child = c
+            for anc in _ancestors(m, c):
+                if isinstance(anc, ast.If):
+                    var, sg = _none_test(anc.test)
+                    if var is not None:
+                        in_body = any(child is x or any(child is y for y in ast.walk(x)) for x in anc.body)
+                        in_none = (sg > 0 and in_body) or (sg < 0 and not in_body)
+                if isinstance(anc, ast.stmt):
+                    child = anc
+            if in_none:
+                n_ok += 1
+            else:
+                r.violation(m.rel, W + "._write", norm(ast.unparse(c)), "the empty string is written for values that are not None",
+                            line=c.lineno)
+        else:
+            raise AnalysisError("%s._write: `%s` not recognised" % (W, norm(ast.unparse(c))))
+    if n_ok == len(creates) and n_ok >= 2:
+        r.ok("%s:%s %s._write" % (m.rel, w.lineno, W), "None is written as the empty string, everything else as itself")
     r.guard(4)
     return r
 
